@@ -97,78 +97,86 @@ def fold_int(node, consts):
 
 
 def check_biginteger_sign_room(ctx, pt, rule='C01.R3'):
-    """BigInteger.write pads the magnitude bits to a multiple of 64 *with at least one leading zero* (room for the sign bit), for every bit length.
-    The padding statements are evaluated over bit lengths 1..192 by a tiny evaluator of the extracted arithmetic (lengths only, no values)."""
+    """BigInteger.write emits a two's-complement number in whole 8-byte words *with room for the sign bit*, for every bit length and
+    both signs.  Decided by folding write() over a length abstraction (pv/fold.py): the value is known only by the bit length of its
+    magnitude and its sign, strings and byte strings only by their length.  What is compared is the length field write() stores
+    (self.length) and the number of value bytes it hands to the stream, for bit lengths 0..200 - whatever the spelling (bit-string
+    manipulation, int.to_bytes, masks and hex formatting)."""
+    from ..fold import Folder, SymInt, AbsStr, AbsBytes, AbsNum, Opaque, Unfoldable, Raised, length_models
+    from ..astutil import module_functions
     c = get_class(pt, 'BigInteger')
     w = get_method(c, 'write')
     site = '%s:%s BigInteger.write' % (PRIM, w.lineno)
     body = [x for x in w.body if not (isinstance(x, ast.Expr) and isinstance(x.value, ast.Constant))]
-    # the prefix up to (excluding) the sign handling `if self.value < 0`
-    prefix = []
-    for st in body:
-        if isinstance(st, ast.If) and 'self.value' in U(st.test):
-            break
-        prefix.append(st)
-    var = None
-    if prefix and isinstance(prefix[0], ast.Assign) and isinstance(prefix[0].targets[0], ast.Name) and 'format' in U(prefix[0].value) and 'abs(self.value)' in U(prefix[0].value):
-        var = prefix[0].targets[0].id
-    if var is None:
-        raise AnalysisError('unrecognised construct: BigInteger.write does not start by formatting abs(self.value) as a bit string')
-
-    class Bits(int):
-        pass
-
-    def ev(e, env):
-        if isinstance(e, ast.Constant):
-            return e.value
-        if isinstance(e, ast.Name):
-            if e.id not in env:
-                raise AnalysisError('unrecognised construct in BigInteger.write padding: name %s' % e.id)
-            return env[e.id]
-        if isinstance(e, ast.Call) and call_name(e) == 'len' and len(e.args) == 1:
-            v = ev(e.args[0], env)
-            if isinstance(v, tuple):
-                return v[1]
-            raise AnalysisError('unrecognised construct: len(%s)' % U(e.args[0]))
-        if isinstance(e, ast.BinOp):
-            a, b = ev(e.left, env), ev(e.right, env)
-            if isinstance(e.op, ast.Mult) and isinstance(a, str) and isinstance(b, int):
-                return ('str', len(a) * max(b, 0))
-            if isinstance(e.op, ast.Mult) and isinstance(b, str) and isinstance(a, int):
-                return ('str', len(b) * max(a, 0))
-            if isinstance(e.op, ast.Add) and isinstance(a, tuple) and isinstance(b, tuple):
-                return ('str', a[1] + b[1])
-            if isinstance(a, int) and isinstance(b, int):
-                return {ast.Add: a + b, ast.Sub: a - b, ast.Mod: a % b if b else 0, ast.Mult: a * b, ast.FloorDiv: a // b if b else 0}[type(e.op)]
-        if isinstance(e, ast.Compare) and len(e.ops) == 1:
-            a, b = ev(e.left, env), ev(e.comparators[0], env)
-            return {ast.Eq: a == b, ast.NotEq: a != b, ast.Lt: a < b, ast.Gt: a > b, ast.LtE: a <= b, ast.GtE: a >= b}[type(e.ops[0])]
-        if isinstance(e, ast.UnaryOp) and isinstance(e.op, ast.Not):
-            return not ev(e.operand, env)
-        raise AnalysisError('unrecognised construct in BigInteger.write padding: %s' % U(e))
-
-    def run_block(stmts, env):
-        for st in stmts:
-            if isinstance(st, ast.Assign) and isinstance(st.targets[0], ast.Name):
-                env[st.targets[0].id] = ev(st.value, env)
-            elif isinstance(st, ast.AugAssign) and isinstance(st.target, ast.Name):
-                env[st.target.id] = ev(ast.BinOp(left=ast.Name(id=st.target.id, ctx=ast.Load()), op=st.op, right=st.value), env)
-            elif isinstance(st, ast.If):
-                t = ev(st.test, env)
-                if isinstance(t, tuple):
-                    t = t[1] > 0
-                run_block(st.body if t else st.orelse, env)
-            else:
-                raise AnalysisError('unrecognised construct in BigInteger.write padding: %s' % short(st))
+    ps = params(w)
+    ctx.need(len(ps) >= 1, 'unrecognised construct: BigInteger.write signature')
+    utils_t = ctx.src.tree('kmip/core/utils.py')
+    utils_fns = module_functions(utils_t)
+    consts = {}
+    for st_ in c.body:
+        if isinstance(st_, ast.Assign) and isinstance(st_.targets[0], ast.Name):
+            v_ = fold_int(st_.value, {})
+            if v_ is not None:
+                consts[st_.targets[0].id] = v_
     bad = []
-    for L in range(1, 193):
-        env = {var: ('str', L)}
-        run_block(prefix[1:], env)
-        total = env[var][1]
-        if total % 64 != 0 or total <= L:
-            bad.append((L, total))
-    ctx.check(not bad, rule, 'BigInteger.write|sign-room', site, 'for every magnitude bit length 1..192 the padded length is a multiple of 64 with at least one leading zero (sign bit)',
-              'the padded bit string leaves no room for the sign bit or is not a multiple of 64 bits for (bit length, padded length) = %s: such values decode with the wrong sign' % bad[:4])
+    outcomes = {}
+    try:
+        for L in range(0, 201):
+            for neg in ((False, True) if L else (False,)):
+                res = []
+                for pick in ('lo', 'hi'):
+                    written = []
+
+                    class Stream:
+                        pass
+                    models = dict(length_models())
+                    # helper functions of kmip.core.utils are folded through (bit_length, count_bytes)
+                    f = Folder(models=models, steps=200000)
+                    f.pick = pick
+
+                    def util(name):
+                        fn_ = utils_fns[name]
+
+                        def run_(*args):
+                            env_ = dict(zip([a_.arg for a_ in fn_.args.args], args))
+                            for n_, ufn in utils_fns.items():
+                                env_.setdefault(n_, ufn)
+                            r_ = f.run(fn_.body, env_)
+                            return r_[1] if r_[0] == 'return' else None
+                        return run_
+                    for n_ in utils_fns:
+                        f.models['utils.' + n_] = util(n_)
+                        f.models[n_] = f.models.get(n_) or util(n_)
+                    selfv = {'__attrs__': ('value', 'length', 'padding_length') + tuple(consts), 'value': SymInt(L, neg), 'length': None, 'padding_length': 0}
+                    selfv.update(consts)
+                    stream = {'__attrs__': ()}
+                    env = {'self': selfv, ps[0]: stream, 'BigInteger': dict(consts, __attrs__=tuple(consts))}
+                    for p_ in ps[1:]:
+                        env[p_] = Opaque('argument')
+                    f.opaque_calls |= {'super'}
+
+                    # writes to the output stream: record the lengths
+                    def m_write(x):
+                        written.append(len(x) if isinstance(x, (AbsStr, bytes, bytearray, str)) else None)
+                    f.models['%s.write' % ps[0]] = m_write
+                    f.models['%s.extend' % ps[0]] = m_write
+                    f.run(body, env)
+                    res.append((selfv.get('length'), tuple(written)))
+                if res[0] != res[1]:
+                    raise Unfoldable('the size of the encoding depends on the position of a digit (%r vs %r)' % (res[0], res[1]))
+                outcomes[(L, neg)] = res[0]
+    except (Unfoldable, Raised) as ex:
+        raise AnalysisError('unrecognised construct: the size of the BigInteger encoding cannot be folded from write(): %s' % ex)
+    for (L, neg), (length, written) in sorted(outcomes.items()):
+        vals = [x for x in written if x is not None]
+        if not isinstance(length, int) or None in written:
+            raise AnalysisError('unrecognised construct: BigInteger.write stores length %r / writes %r' % (length, written))
+        total = 8 * length
+        if total % 64 != 0 or total <= L or sum(vals) != length:
+            bad.append((('-' if neg else '+') + str(L), total, sum(vals)))
+    ctx.analysed['biginteger_bit_lengths_folded'] = len(outcomes)
+    ctx.check(not bad, rule, 'BigInteger.write|sign-room', site, 'for every magnitude bit length 0..200 and both signs the encoding is a whole number of 64-bit words with at least one bit left for the sign, and exactly self.length value bytes are written',
+              'the encoding leaves no room for the sign bit, is not a multiple of 64 bits, or its length field disagrees with the bytes written, for (sign+bit length, encoded bits, bytes written) = %s: such values decode with the wrong sign' % bad[:4])
 
 
 def check_shared_defaults(ctx):
